@@ -23,6 +23,7 @@ COMP = Component(
     has_arg=lambda m: m == "write",
     gen_arg=lambda cfg, m, rng, tr: rng.randrange(1, 1 << DATA_W),
     want=want, module=__name__,
+    shadow=lambda cfg: ["read", "write"],
 )
 
 
